@@ -8,6 +8,7 @@ CONSTANTS
   NSTEP = 2
   Accumulate = FALSE
   SortedListing = TRUE
+  CellSymmetric = TRUE
   WaitFirstN = FALSE
   NITER = 1
   AdptFac = 1
